@@ -22,7 +22,9 @@
 (***************************************************************************)
 EXTENDS Naturals, Integers, Sequences, TLC, Json, IOUtils
 
-CONSTANTS TableDirs     \* sequence of directories, later ones override earlier ones (WMO, then local)
+CONSTANTS TableDirs,    \* sequence of directories, later ones override earlier ones (WMO, then local)
+          ExtraB, ExtraD   \* entries defined in-stream (C20): functions from 6-digit keys to entries in the
+                           \* layout of the table files; they override the files.  <<>> when there are none
 
 (* ---- descriptor ids ------------------------------------------------------ *)
 FF(id) == id \div 100000
@@ -48,8 +50,9 @@ Merge(dirs, fname, i) ==
 (* TLC re-evaluates a definition that involves RECURSIVE operators at every use (it cannot see that
    it is constant), so the merged tables are computed once, when the ASSUME is evaluated at start-up,
    and kept in TLC registers that every worker inherits. *)
-ASSUME TLCSet(11, Merge(TableDirs, "TableB.json", 1))
-ASSUME TLCSet(12, Merge(TableDirs, "TableD.json", 1))
+Over(a, b) == [k \in (DOMAIN a) \cup (DOMAIN b) |-> IF k \in DOMAIN a THEN a[k] ELSE b[k]]     \* a wins
+ASSUME TLCSet(11, IF ExtraB = <<>> THEN Merge(TableDirs, "TableB.json", 1) ELSE Over(ExtraB, Merge(TableDirs, "TableB.json", 1)))
+ASSUME TLCSet(12, IF ExtraD = <<>> THEN Merge(TableDirs, "TableD.json", 1) ELSE Over(ExtraD, Merge(TableDirs, "TableD.json", 1)))
 TableB == TLCGet(11)
 TableD == TLCGet(12)
 
@@ -90,6 +93,12 @@ Fa(id) == [k |-> "F", id |-> id, span |-> 0, cnt |-> 0]
 O(id) == [k |-> "O", id |-> id, span |-> 0, cnt |-> 0]
 Min(a, b) == IF a <= b THEN a ELSE b
 
+(* NcepReplicationOnlySequence (a named deviation, in-stream NCEP tables only): a sequence that consists of
+   nothing but a replication descriptor (and its factor) stands for that replication applied to the
+   descriptors that FOLLOW the sequence in the list *)
+NcepStyle(h) == InD(h) /\ LET m == SeqMembers(h) IN
+    Len(m) >= 1 /\ FF(m[1]) = 1 /\ Len(m) = (IF YY(m[1]) = 0 THEN 2 ELSE 1)
+
 RECURSIVE BuildList(_, _)
 (* ids: integers; seqOf(id) gives the member ids of a sequence *)
 BuildList(ids, depth) ==
@@ -99,6 +108,8 @@ BuildList(ids, depth) ==
       CASE FF(h) = 0 -> <<E(h)>> \o BuildList(t, depth)
         [] FF(h) = 2 -> <<O(h)>> \o BuildList(t, depth)
         [] FF(h) = 3 ->
+             IF NcepStyle(h) THEN BuildList(SeqMembers(h) \o t, depth)
+             ELSE
              LET body == IF InD(h) /\ depth < 12 THEN BuildList(SeqMembers(h), depth + 1) ELSE <<>>
              IN <<[k |-> "S", id |-> h, span |-> Len(body), cnt |-> 0]>> \o body \o BuildList(t, depth)
         [] FF(h) = 1 ->
